@@ -3,6 +3,7 @@ package harness
 
 import (
 	"fmt"
+	"math"
 	"math/rand"
 	"testing"
 )
@@ -24,7 +25,13 @@ func TestC08(t *testing.T) {
 		for ci := 0; ci < nCases; ci++ {
 			r := root.Fork()
 			cfg := GenLimitCfg(r, kind, r.Intn(2))
-			if kind == 1 && r.Bool(10) {
+			forceDir := kind == 1 && r.Bool(30)
+			if forceDir {
+				// a plain Vegas limit with smoothing 1.0: every change of the candidate shows in the reported estimate
+				cfg = GenLimitCfg(r, kind, 0)
+				cfg.P[3] = FBits(1.0)
+			}
+			if kind == 1 && r.Bool(10) && !forceDir {
 				cfg.P[0], cfg.P[1] = 50, 20 // initial above max: known finding F18
 			}
 			seed := int64(r.U64() >> 1)
@@ -66,16 +73,45 @@ func TestC08(t *testing.T) {
 			}
 			lo := base + r.Pick(0, 0, 1, base/10, base/2, base, 3*base)
 			hi := lo + r.Pick(1, 1, 2, base/100+1, base/10+1, base, 5*base)
-			if r.Bool(30) { // aim around Vegas' queue thresholds
+			directed := false
+			if r.Bool(30) || forceDir { // aim around Vegas' queue thresholds
 				est := scout.EstFloat()
 				q := float64(r.Pick(0, 1, 2, 3, 5, 6, 7, 12, 13))
+				if (r.Bool(60) || forceDir) && est >= 1 {
+					// the thresholds of the current estimate: log10 root, x3 (alpha), x6 (beta), and their neighbours
+					lg := int64(math.Max(1, math.Floor(math.Log10(math.Floor(est)))))
+					q = float64(r.Pick(lg, 3*lg, 6*lg) + r.Pick(-1, 0, 0, 1))
+					if q < 0 {
+						q = 0
+					}
+				}
 				if est > q+1 && nl > 0 {
-					lo = int64(float64(nl)/(1-q/est)) + r.Pick(-1, 0, 1)
+					directed = forceDir || (kind == 1 && r.Bool(75))
+					off := r.Pick(-1, 0, 1)
+					if directed {
+						off = r.Pick(1, 1, 0)
+					}
+					lo = int64(float64(nl)/(1-q/est)) + off
 					hi = lo + r.Pick(1, 2, nl/20+1)
 					if lo < nl {
 						lo = nl
 						hi = lo + 1
 					}
+					if directed && lo > 0 && lo < 1<<58 && !scout.Dead {
+						// the sample just before the pair already carries the low RTT (and moves the estimate a little): the pair must be
+						// judged against the estimate as it is now, not as it was one sample ago
+						scout.Now += 1000
+						x := sm{scout.Now, lo, int64(est) + 1, r.Bool(70)}
+						prefix = append(prefix, x)
+						scout.OnSample(x.start, x.rtt, x.inf, x.drop)
+					}
+				}
+			}
+			if len(prefix) > 0 && r.Bool(25) {
+				// the low RTT repeats the RTT of the sample before it (the estimate has moved since): nothing may be carried over from that sample
+				if last := prefix[len(prefix)-1].rtt; last > 0 && last >= nl && last < 1<<58 {
+					lo = last
+					hi = lo + r.Pick(1, 2, last/20+1, last)
 				}
 			}
 			if base > 1<<58 {
@@ -97,6 +133,9 @@ func TestC08(t *testing.T) {
 			inf := r.Pick(0, int64(scout.EstFloat()/2), int64(scout.EstFloat()), int64(scout.EstFloat())+2)
 			drop := r.Bool(20)
 			if kind == 2 && r.Bool(60) {
+				inf, drop = int64(scout.EstFloat())+1, false
+			}
+			if directed && r.Bool(80) {
 				inf, drop = int64(scout.EstFloat())+1, false
 			}
 			start := scout.Now + 1000
